@@ -280,7 +280,7 @@ type amfDec struct {
 	dom    map[string]Dom
 	spec   []abs.SegSpec
 	fields map[string]Want
-	nprops int // expected number of properties (-1 = not a container)
+	nprops int  // expected number of properties (-1 = not a container)
 	expErr bool // the input is malformed and must be rejected
 }
 
